@@ -249,9 +249,16 @@ pub async fn read_response(recv: &mut quinn::RecvStream, limit: Duration) -> Res
             Waited::Done(Ok(Some(n))) => all.extend_from_slice(&buf[..n]),
             Waited::Done(Ok(None)) => return Err(format!("request stream finished after {} bytes without HEADERS", all.len())),
             Waited::Done(Err(e)) => return Err(format!("request stream read: {e}")),
+            Waited::TimedOut if !all.is_empty() => return Err(format!("response timed out with an incomplete frame: {} bytes received ({})", all.len(), refcodec::json::hex(&all[..all.len().min(16)]))),
             Waited::TimedOut => return Err("response timed out".into()),
         }
     }
+}
+
+pub fn small_stream_window(w: u32) -> quinn::TransportConfig {
+    let mut t = raw_transport();
+    t.stream_receive_window(quinn::VarInt::from_u32(w));
+    t
 }
 
 pub struct RawSession {
@@ -303,6 +310,12 @@ pub async fn raw_server_accept(ep: &quinn::Endpoint, settings: &[u8], response: 
         })
         .await;
     if !ok {
+        let g = peer.rec.bi.lock().unwrap();
+        if let Some((id, r)) = g.iter().next() {
+            if !r.data.is_empty() {
+                return Err(format!("CONNECT request not received: stream {id} carried an incomplete frame: {} bytes received ({})", r.data.len(), refcodec::json::hex(&r.data[..r.data.len().min(16)])));
+            }
+        }
         return Err("CONNECT request not received".into());
     }
     let (sid, frames) = {
